@@ -489,6 +489,13 @@ func c06addmount(env *core.Env, cs c06case, idx int, res *core.CaseResult) {
 			want = "fail"
 		}
 		nf, _ := mem.NewFS()
+		if hackpadfs.ValidPath(c) {
+			// the names below the point are looked at BEFORE it is mounted (whatever is remembered about them is about
+			// the directory that is about to be hidden)
+			_, _ = hackpadfs.Stat(w.mfs, c+"/probe")
+			_, _ = hackpadfs.ReadDir(w.mfs, c)
+			_, _ = hackpadfs.Stat(w.mfs, c+"/sub/deeper")
+		}
 		var aerr error
 		if p := core.Recover(func() { aerr = w.mfs.AddMount(c, nf) }); p != "" {
 			res.Violate("C06|AddMount|"+want+"|panic", fmt.Sprintf("AddMount(%q) panicked: %s", c, p), nil)
@@ -515,6 +522,14 @@ func c06addmount(env *core.Env, cs c06case, idx int, res *core.CaseResult) {
 			}
 			if _, err := hackpadfs.Stat(nf, "probe"); err != nil {
 				res.Violate("C06|AddMount|new-mount-not-routed", fmt.Sprintf("after AddMount(%q) a file written below it did not land in the mounted file system", c), nil)
+				return
+			}
+			if err := hackpadfs.MkdirAll(w.mfs, c+"/sub/deeper", 0o755); err != nil {
+				res.Violate("C06|AddMount|new-mount-not-routed", fmt.Sprintf("after AddMount(%q) MkdirAll below it failed: %v", c, err), nil)
+				return
+			}
+			if _, err := hackpadfs.Stat(nf, "sub/deeper"); err != nil {
+				res.Violate("C06|AddMount|new-mount-not-routed", fmt.Sprintf("after AddMount(%q) directories made below it (at names that had been looked up before the mount) did not land in the mounted file system", c), nil)
 				return
 			}
 		}
